@@ -57,7 +57,13 @@ META = {
                 'doit/doit_cmd.py::DoitMain.run', 'doit/doit_cmd.py::DoitMain.__init__',
                 'doit/doit_cmd.py::DoitMain.process_args',
                 'doit/task.py::Task.init_options', 'doit/loader.py::load_tasks',
-                'doit/cmd_base.py::NamespaceTaskLoader.load_tasks', 'doit/control.py::TaskControl._process_filter'],
+                'doit/cmd_base.py::NamespaceTaskLoader.load_tasks', 'doit/control.py::TaskControl._process_filter',
+                # wave 5: the configuration side (Model/OptCfg.lean)
+                'doit/plugin.py::PluginDict.add_plugins', 'doit/plugin.py::PluginDict.get_plugin',
+                'doit/plugin.py::PluginDict.to_dict', 'doit/plugin.py::PluginEntry.load',
+                'doit/doit_cmd.py::DoitMain.get_cmds', 'doit/doit_cmd.py::DoitConfig.loads',
+                'doit/doit_cmd.py::DoitConfig.load_config_toml', 'doit/cmd_base.py::get_loader',
+                'doit/cmd_base.py::DoitCmdBase.get_backends', 'doit/cmd_run.py::Run.get_reporters'],
     'technique': 'Lean 4 proofs over an executable model of getopt + CmdOption/CmdParse/DefaultUpdate (round trip of '
                  'rendered assignments by induction, rejection, purity of parse as a state transformer, precedence) '
                  '+ differential correspondence against the real classes on five code paths + specification monitor',
